@@ -36,6 +36,7 @@ class Rewrite:
     min_count: int = 0  # over the whole unit
     only: tuple = ()   # restrict to items whose qualified name is listed
     flags: int = 0
+    balanced: bool = False   # pattern ends at an opening delimiter; replace through its matching closer
 
 
 @dataclass
@@ -61,6 +62,7 @@ class Item:
     attrs: str = ''     # extra attributes (ghost-only, e.g. #[verifier::exec_allows_no_decreases_clause])
     rewrites: tuple = ()
     canary: bool = True
+    unit_rewrites: bool = True
     qname: str = None
 
     def q(self):
@@ -87,15 +89,29 @@ class Contracts:
         @end
     """
 
-    def __init__(self, path):
+    def __init__(self, path=None):
         self.fn = {}
         self.ret = {}
         self.loops = {}
         self.proofs = {}
         self.closures = {}
         self.path = path
-        if path is None:
+        self.shared = set()     # keys that come from a shared file (no unused check)
+        if path is not None:
+            self.load(path)
+
+    def load(self, path, shared=False):
+        if shared:
+            tmp = Contracts(path)
+            for k, v in tmp.fn.items():
+                if k not in self.fn:
+                    self.fn[k] = v
+                    self.shared.add(k)
+                    if k in tmp.ret:
+                        self.ret[k] = tmp.ret[k]
             return
+        self.path = self.path or path
+        before = set(self.fn)
         cur = None
         buf = []
         for ln, line in enumerate(open(path).read().split('\n'), 1):
@@ -141,6 +157,8 @@ class Contracts:
                     buf.append(line)
             elif s and not s.startswith('#') and not s.startswith('//'):
                 raise ExtractError('%s:%d text outside a block' % (path, ln))
+        if shared:
+            self.shared |= set(self.fn) - before
 
 
 class Gen:
@@ -178,7 +196,11 @@ class UnitBuild:
     def __init__(self, unit, repo=None):
         self.unit = unit
         self.repo = repo or REPO
-        self.contracts = Contracts(os.path.join(VERIF, 'contracts', unit.CONTRACTS)) if getattr(unit, 'CONTRACTS', None) else Contracts(None)
+        self.contracts = Contracts()
+        if getattr(unit, 'CONTRACTS', None):
+            self.contracts.load(os.path.join(VERIF, 'contracts', unit.CONTRACTS))
+        for sh in getattr(unit, 'SHARED_CONTRACTS', []):
+            self.contracts.load(os.path.join(VERIF, 'contracts', sh), shared=True)
         self.gen = Gen()
         self.rule_counts = {}
         self.functions = []      # dicts: qname, file, line, mode, gen_start, gen_end
@@ -204,9 +226,26 @@ class UnitBuild:
     # ------------------------------------------------------------------
     def apply_rewrites(self, text, item):
         nl = text.count('\n')
-        rws = list(self.unit.REWRITES) + list(item.rewrites)
+        rws = (list(self.unit.REWRITES) if item.unit_rewrites else []) + list(item.rewrites)
         for rw in rws:
             if rw.only and item.q() not in rw.only:
+                continue
+            if rw.balanced:
+                n = 0
+                pos = 0
+                while True:
+                    mk = mask(text)
+                    m = re.compile(rw.pattern, rw.flags).search(mk, pos)
+                    if not m:
+                        break
+                    close = match_delim(mk, m.end() - 1)
+                    old = text[m.start():close + 1]
+                    new = m.expand(rw.repl)
+                    new = new + '\n' * (old.count('\n') - new.count('\n'))
+                    text = text[:m.start()] + new + text[close + 1:]
+                    pos = m.start() + len(new)
+                    n += 1
+                self.count(rw.rule, n)
                 continue
             def _sub(m, rw=rw):
                 new = m.expand(rw.repl)
@@ -241,17 +280,25 @@ class UnitBuild:
             self.gen.add('}', 'gen')
         # every contract block must have been used (a lost anchor is undecided, not a pass)
         for k in self.contracts.fn:
-            if k not in self.used_contracts:
+            if k not in self.used_contracts and k not in self.contracts.shared:
                 raise ExtractError('contract for %s has no extracted function' % k)
+        verified = set(f['qname'] for f in self.functions if f['mode'] == 'verify')
+        dev = bool(os.environ.get('VERIF_DEV_ASSUME'))
         for k, d in self.contracts.loops.items():
+            if dev and k not in verified:
+                continue
             for o in d:
                 if (k, o) not in self.used_loops:
                     raise ExtractError('loop contract %s #%s matched no loop' % (k, o))
         for k, d in self.contracts.closures.items():
+            if dev and k not in verified:
+                continue
             for o in d:
                 if (k, o) not in self.used_closures:
                     raise ExtractError('closure contract %s #%s matched no closure' % (k, o))
         for k, lst in self.contracts.proofs.items():
+            if dev and k not in verified:
+                continue
             for idx in range(len(lst)):
                 if (k, idx) not in self.used_proofs:
                     raise ExtractError('proof block %s #%d matched no anchor' % (k, idx))
@@ -335,7 +382,12 @@ class UnitBuild:
         g0 = len(self.gen.lines)
         if it.attrs:
             self.gen.add(it.attrs, 'gen')
-        if it.mode == 'assume':
+        dev_assume = os.environ.get('VERIF_DEV_ASSUME', '')
+        if dev_assume.startswith('!'):
+            dev_hit = q not in dev_assume[1:].split(',')
+        else:
+            dev_hit = bool(dev_assume) and q in dev_assume.split(',')
+        if it.mode == 'assume' or dev_hit:
             self.gen.add('#[verifier::external_body]', 'gen')
             self.gen.add(sig.rstrip(), 'repo', it.file, line0, q)
             if ctext.strip():
